@@ -120,3 +120,90 @@ def check_C02(tier, seed):
     v.assumptions = ["change positions are compared numerically (tokens are the documented sequence numbers)",
                      "contents from the concretisation tables; ids <= 3; bounded depth"]
     return v.finish(rule=RULE_REPLAY)
+
+
+# ----------------------------------------------------------------------------
+# C03 / C06
+
+def rel_contents():
+    return [content(1, p=(1, ["e2"])),                      # 1 single ref
+            content(1, p=(2, ["e2", "e3"])),                # 2 array ref
+            content(1, p=(1, ["e2"]), q=(1, ["e2"])),       # 3 two predicates between the same pair
+            content(2),                                     # 4 no refs
+            content(0, d=True),                             # 5 deleted, bare
+            content(1, d=True, p=(1, ["e2"])),              # 6 deleted, keeps its refs
+            content(1, q=(1, ["e3"]), p=(2, ["e1"]))]       # 7 other predicate, self/array
+
+
+def ref_combos(steps, contents):
+    """(s, o) -> set of (pred, dataset) under which s referenced o at some point of the history."""
+    out = {}
+    def add(ds, b):
+        for e, c in b:
+            for q, (k, ts) in contents[c - 1]["refs"].items():
+                for o in ts:
+                    out.setdefault((e, o), set()).add((q, ds))
+    for st in steps:
+        if st["a"] == "store":
+            add(st["ds"], st["b"])
+        elif st["a"] == "txn":
+            for ds, b in st["m"]:
+                add(ds, b)
+    return out
+
+
+def classify_c03(contents):
+    def classify(r, d):
+        q = d.get("query") or {}
+        if d["kind"] != "related" or not isinstance(q, dict) or not q.get("inverse"):
+            return None
+        exp, act = set(d["expected"] or []), set(d["actual"] or [])
+        if not isinstance(d["expected"], list):
+            return None
+        combos = ref_combos(r["steps"], contents)
+        for pair in exp ^ act:
+            s = pair.split(">")[1]
+            if len(combos.get((s, q["start"]), ())) >= 2:
+                return "C03-incoming-multi-relation"
+        # duplicates only (same set): a referencing entity listed twice
+        if exp == act:
+            for pair in act:
+                s = pair.split(">")[1]
+                if len(combos.get((s, q["start"]), ())) >= 2:
+                    return "C03-incoming-multi-relation"
+        return None
+    return classify
+
+
+def check_C03(tier, seed):
+    v = Verdict("C03", tier, seed)
+    v.wd = verif.workdir("C03")
+    sd = verif.spec_copy(v.wd)
+    binary = verif.build_harness(v.wd)
+    thorough = tier == "thorough"
+    tabs = "plain,native" if thorough else "plain"
+    rc = rel_contents()
+    rq = [rc[1], rc[2], rc[4], rc[6]]
+    kinds = ("rel", "look")
+    cl = classify_c03
+    # (a) one dataset, delete / un-delete and re-pointing inside one batch
+    c = rc if thorough else rq
+    datahub_stage(v, sd, binary, "C03_batch", ds=["a"], ent=["e1", "e2", "e3"], preds=("p", "q"), contents=c,
+                  max_batch=2, max_steps=2, tables=tabs, kinds=kinds, limits=(0, 1, 2), rotate=True,
+                  classify=cl(c), invariants=CORE_INV + ["InIsTransposeOfOut"])
+    # (b) two datasets with the same entity in different delete states, all scopes
+    datahub_stage(v, sd, binary, "C03_multi", ds=["a", "b"], ent=["e1", "e2", "e3"], preds=("p", "q"),
+                  contents=c, max_batch=1, max_steps=3, acts=("store",),
+                  tables=tabs, kinds=kinds, limits=(0, 1, 2), rotate=True, classify=cl(c))
+    if thorough:
+        datahub_stage(v, sd, binary, "C03_txn", ds=["a", "b"], ent=["e1", "e2", "e3"], preds=("p", "q"),
+                      contents=rq, max_batch=1, max_steps=2, acts=("store", "txn"),
+                      tables=tabs, kinds=kinds, limits=(0, 1, 2), rotate=True, classify=cl(rq))
+    # (c) deep sampled histories
+    datahub_stage(v, sd, binary, "C03_deep", ds=["a", "b"], ent=["e1", "e2", "e3"], preds=("p", "q"), contents=rc,
+                  max_batch=2, max_steps=8 if thorough else 6, acts=("store", "txn"), tables=tabs, kinds=kinds,
+                  limits=(0, 1, 2, 3), sample=True, seed=seed, rotate=True, fan=6 if thorough else 5,
+                  classify=cl(rc))
+    v.assumptions = ["scopes are subsets of the existing datasets (a scope naming only unknown datasets is reported separately)",
+                     "ids <= 3, predicates <= 2, datasets <= 2, bounded depth"]
+    return v.finish(rule=RULE_REPLAY)
